@@ -9,6 +9,7 @@ import (
 	"os"
 	"sort"
 	"strings"
+	"syscall"
 )
 
 func init() {
@@ -32,6 +33,9 @@ func c16Gen(class string, seed uint64, tier string) *vfScenario {
 		if rng.IntN(3) == 0 {
 			sc.Cfg["n"] = int64(rng.IntN(40))
 		}
+		if rng.IntN(3) == 0 {
+			sc.Cfg["names"] = 3 // long names: one batch of 128 entries is larger than a data packet
+		}
 	case "rs", "rs-alloc":
 		sc.Cfg["kind"] = 1
 		if class == "rs-alloc" {
@@ -48,7 +52,8 @@ func c16Gen(class string, seed uint64, tier string) *vfScenario {
 			sc.Cfg["n"] = int64([]int{B - 1, B, B + 1, 2*B - 1, 2 * B, 2*B + 1, 2*B + 2}[rng.IntN(7)])
 		}
 		sc.Cfg["liststyle"] = int64(rng.IntN(4))
-		sc.Cfg["names"] = int64(rng.IntN(3)) // 0 plain, 1 with . and .., 2 odd names
+		sc.Cfg["names"] = int64(rng.IntN(3))  // 0 plain, 1 with . and .., 2 odd names
+		sc.Cfg["shapes"] = int64(rng.IntN(2)) // 1: entries differ in which attributes they carry
 		sc.Cfg["hopt"] = int64([]int{0, 128}[rng.IntN(2)])
 		sc.Cfg["parkdata"] = int64(rng.IntN(2))
 	case "inmem":
@@ -67,6 +72,9 @@ func c16Names(n int, style int, seed uint64) []string {
 	var out []string
 	for i := 0; i < n; i++ {
 		name := fmt.Sprintf("e%04d", i)
+		if style == 3 {
+			name = fmt.Sprintf("%s-%s", name, strings.Repeat("n", 100+int(vfMix(seed, uint64(i))%150)))
+		}
 		if style == 2 {
 			switch vfMix(seed, uint64(i)) % 6 {
 			case 0:
@@ -102,6 +110,9 @@ func c16Exec(r *vfRun) {
 		perm  os.FileMode
 		mtime int64
 		uid   uint32
+		gid   uint32
+		ids   bool // uid and gid are compared
+		ext   []StatExtended
 	}
 	want := map[string]entry{}
 	dir := "dd"
@@ -110,7 +121,7 @@ func c16Exec(r *vfRun) {
 		v, err = vfStartFileSystem(r, nil)
 		if v != nil && v.root != "" {
 			os.Mkdir(v.root+"/dd", 0o755)
-			for i, name := range c16Names(n, 0, sc.Seed) {
+			for i, name := range c16Names(n, int(sc.cfg("names", 0)), sc.Seed) {
 				p := v.root + "/dd/" + name
 				if i%7 == 3 {
 					os.Mkdir(p, 0o700)
@@ -118,7 +129,11 @@ func c16Exec(r *vfRun) {
 					os.WriteFile(p, make([]byte, i%50), os.FileMode(0o600+i%64))
 				}
 				fi, _ := os.Lstat(p)
-				want[name] = entry{size: fi.Size(), perm: fi.Mode() & (os.ModePerm | os.ModeDir), mtime: fi.ModTime().Unix()}
+				w := entry{size: fi.Size(), perm: fi.Mode() & (os.ModePerm | os.ModeDir), mtime: fi.ModTime().Unix()}
+				if st, ok := fi.Sys().(*syscall.Stat_t); ok {
+					w.uid, w.gid, w.ids = st.Uid, st.Gid, true
+				}
+				want[name] = w
 			}
 		}
 	case 1:
@@ -135,7 +150,17 @@ func c16Exec(r *vfRun) {
 					nd.kind, nd.mode, nd.data = 'd', os.ModeDir|0o711, nil
 				}
 				v.fs.nodes["/dd/"+name] = nd
-				want[name] = entry{size: int64(len(nd.data)), perm: nd.mode & (os.ModePerm | os.ModeDir), mtime: nd.mtime, uid: nd.uid}
+				w := entry{size: int64(len(nd.data)), perm: nd.mode & (os.ModePerm | os.ModeDir), mtime: nd.mtime, uid: nd.uid, gid: nd.gid, ids: true}
+				if sc.cfg("shapes", 0) != 0 {
+					switch nd.shape = byte(vfMix(sc.Seed^0x5a, uint64(i)) % 3); nd.shape {
+					case 1:
+						w.uid, w.gid = 0, 0 // not reported, so the client must show none
+					case 2:
+						nd.ext = []StatExtended{{ExtType: fmt.Sprintf("t%d@x", i), ExtData: fmt.Sprintf("d%d", i)}}
+						w.ext = nd.ext
+					}
+				}
+				want[name] = w
 			}
 			v.fs.mu.Unlock()
 			v.fs.listStyle = int(sc.cfg("liststyle", 0))
@@ -223,7 +248,14 @@ func c16Exec(r *vfRun) {
 	for _, fi := range res.Infos {
 		w := want[fi.Name()]
 		st, _ := fi.Sys().(*FileStat)
-		if fi.Size() != w.size || fi.Mode()&(os.ModePerm|os.ModeDir) != w.perm || (w.mtime >= 0 && fi.ModTime().Unix() != w.mtime) || (w.uid != 0 && (st == nil || st.UID != w.uid)) {
+		extOK := true
+		if w.ids {
+			extOK = st != nil && len(st.Extended) == len(w.ext)
+			for i := 0; extOK && i < len(w.ext); i++ {
+				extOK = st.Extended[i] == w.ext[i]
+			}
+		}
+		if fi.Size() != w.size || fi.Mode()&(os.ModePerm|os.ModeDir) != w.perm || (w.mtime >= 0 && fi.ModTime().Unix() != w.mtime) || (w.ids && (st == nil || st.UID != w.uid || st.GID != w.gid)) || !extOK {
 			r.fail("C16/wrong-attributes", "attrs", "%s: entry %q came back with size=%d mode=%v mtime=%d uid=%v, the server reported size=%d mode=%v mtime=%d uid=%d", cfgs, fi.Name(), fi.Size(), fi.Mode(), fi.ModTime().Unix(), st, w.size, w.perm, w.mtime, w.uid)
 			return
 		}
